@@ -402,11 +402,16 @@ CreateAcceptedS(s, t, cols) ==
   /\ CreateOK(t, cols) /\ t \notin DOMAIN s.schemas
   /\ \A k \in 1..Len(cols) : Representable(t, cols[k])
 
+\* the catalog of a database written by another tool may still describe, in _Columns or _Validation, a table that
+\* _Tables does not list: creating a table of that name would collide with those rows and is refused as a whole
+CatalogMentions(s, t) ==
+  \/ \E k \in 1..Len(RowsS(s, N_Columns)) : RowsS(s, N_Columns)[k][1] = StrV(t)
+  \/ (N_Validation \in DOMAIN s.schemas /\ \E k \in 1..Len(RowsS(s, N_Validation)) : RowsS(s, N_Validation)[k][1] = StrV(t))
 CreateSpec(s, a, res, s1) ==
   LET t == a.table cols == a.cols
       sc2 == [x \in DOMAIN s.schemas \cup {t} |-> IF x = t THEN cols ELSE s.schemas[x]]
       others == DOMAIN s.schemas \ {N_Tables, N_Columns, N_Validation}
-  IN \/ /\ res = "Ok" /\ CreateAcceptedS(s, t, cols)
+  IN \/ /\ res = "Ok" /\ CreateAcceptedS(s, t, cols) /\ ~CatalogMentions(s, t)
         /\ s1.schemas = sc2
         /\ Same(s, s1, Medium \cup Others)
         /\ DOMAIN s1.tstream = DOMAIN s.tstream \cup ({N_Tables, N_Columns, N_Validation} \cap DOMAIN s.schemas)
@@ -418,7 +423,7 @@ CreateSpec(s, a, res, s1) ==
                  = SortByKey(ValidationCols, RowsS(s, N_Validation) \o NormRows(ValidationRows(t, cols))))
         /\ MemWFS(s1) /\ DirtyMono(s, s1) /\ WithinCapacity(s1)
      \/ /\ res = "Err" /\ NothingChanged(s, s1)
-        /\ (~CreateAcceptedS(s, t, cols) \/ MayExceed(s, N_Columns, Len(cols), 12 * Len(cols)))
+        /\ (~CreateAcceptedS(s, t, cols) \/ CatalogMentions(s, t) \/ MayExceed(s, N_Columns, Len(cols), 12 * Len(cols)))
 
 DropSpec(s, a, res, s1) ==
   LET t == a.table
